@@ -27,6 +27,7 @@ def run(ctx):
     cfg2 = [(2, BN128, E.D(2))] + ([(3, CURVE25519, E.D(2))] if ctx.thorough else [])
     e1.sweep(ctx, d2, cfg2, "pv.checks.c04.oracle", modes=E.MODES if ctx.thorough else ("ign", "g0"))
     X.real_backend_sweeps(ctx, "pv.checks.c04.oracle", E.MODES)
+    e1.wide_sweep(ctx, "pv.checks.c04.oracle", E.MODES, include_assert=True)
     X.structured_sweep(ctx, "pv.checks.c04.oracle", E.MODES, fxp=True)
     X.long_run(ctx, "mism")
     e1.bfs_sweep(ctx, {"value!=wire"}, ctx.thorough)
